@@ -25,10 +25,10 @@ func startsClient(c *chk.Ctx, f *ssa.Function) bool {
 
 func init() {
 	register(&Def{
-		ID:        "C04",
-		Technique: "typestate of the pending table (lookup-remove-write in one critical section), single-writer slot rules, atomic read-modify-write of the id counter, id/key provenance, routing dominance",
-		Explanation: "Decides: (D1) the id counter is read into FormatInt and incremented by exactly 1 in one critical section, with no other writer and no arithmetic between counter and id; (D2) every write into a response slot happens under the client lock, after a hit lookup of the id in the pending table and its removal, to the looked-up entry, once, with no release in between (3 sites); slots have constant capacity ≥ 1; (D3) requests are registered under the lock with key = Response.id, only on the success edge of Send, each with a context watcher whose cancel function is stored in the Response; (D4) the message written into a slot carries the id under which the Response was registered (the id-mismatch panic is unreachable), and request-shaped inbound members are routed away before the table is consulted; unknown ids return without a write. (D6) the loop that delivers the members of an inbound message has no early exit.",
-		NotDecided: []string{"that the value delivered equals what the peer sent for every reply stream", "that response i of Batch belongs to call i is decided only structurally (request i from spec i, one slot per id-carrying request in one in-order pass, send's slice returned unchanged)"},
+		ID:          "C04",
+		Technique:   "typestate of the pending table (lookup-remove-write in one critical section), single-writer slot rules, atomic read-modify-write of the id counter, id/key provenance, routing dominance",
+		Explanation: "Decides: (D1) the id counter is read into FormatInt and incremented by exactly 1 in one critical section, with no other writer and no arithmetic between counter and id; (D2) every write into a response slot happens under the client lock, after a hit lookup of the id in the pending table and its removal, to the looked-up entry, once, with no release in between (3 sites); slots have constant capacity ≥ 1; (D3) requests are registered under the lock with key = Response.id, only on the success edge of Send, each with a context watcher whose cancel function is stored in the Response; (D4) the message written into a slot carries the id under which the Response was registered (the id-mismatch panic is unreachable), and request-shaped inbound members are routed away before the table is consulted; unknown ids return without a write. (D6) the loop that delivers the members of an inbound message has no early exit. (D7) the key used to match a reply is the whole (null-normalised) id text, never a substring or respelling.",
+		NotDecided:  []string{"that the value delivered equals what the peer sent for every reply stream", "that response i of Batch belongs to call i is decided only structurally (request i from spec i, one slot per id-carrying request in one in-order pass, send's slice returned unchanged)"},
 		Assumptions: []string{"sync.Mutex semantics", "strconv.FormatInt is injective"},
 		RuleText:    ruleText,
 		Run: func(c *chk.Ctx, tier string) {
@@ -45,6 +45,7 @@ func init() {
 			c.Clause("C04-D4")
 			ruleTokenKeyed(c, "client")
 			ruleClientRouting(c)
+			ruleReplyKeyWhole(c, c.M.CPending, "client")
 			ruleNullErrorIsAbsent(c)
 			c.Clause("C04-D5")
 			ruleBatchOrder(c)
@@ -52,10 +53,10 @@ func init() {
 		},
 	})
 	register(&Def{
-		ID:        "C05",
-		Technique: "single-writer slot typestate, stop-function path queries, running-state facts at client sends, goroutine accounting against the lifetime WaitGroup, lock-state facts at hook calls, constant tables of filterError vs ErrorCode",
-		Explanation: "Decides: (D1) at most one completion per request: slot writes follow lookup-and-remove in one critical section, slots are closed only by their single receiver after a successful receive; (D2) at least one after an ending event: every registration starts a context watcher with a guaranteed cancel, and every path from Close in the stop function cancels all pending entries and the callback context; Close is guarded, once, and coupled with the stop cause, which is non-nil at every call; (D3) both client Send sites require the running state established in the same critical section; (D4) filterError maps exactly the codes ErrorCode assigns to context.Canceled/DeadlineExceeded back to them; (D5) OnCancel runs with the lock definitely released, after the Response settled, from a closure created only after this goroutine wrote the slot; OnStop runs with the lock released, only from the closure the stop function returns after actually closing; (D6) reader, per-message delivery and callback goroutines are registered with the WaitGroup that Close waits on before every return. (D7) the waiter that settles a Response calls its cancel function on every path; the delivery loop has no early exit.",
-		NotDecided: []string{"which of reply / context end wins a race", "absence of blocking in user hooks; timing"},
+		ID:          "C05",
+		Technique:   "single-writer slot typestate, stop-function path queries, running-state facts at client sends, goroutine accounting against the lifetime WaitGroup, lock-state facts at hook calls, constant tables of filterError vs ErrorCode",
+		Explanation: "Decides: (D1) at most one completion per request: slot writes follow lookup-and-remove in one critical section, slots are closed only by their single receiver after a successful receive; (D2) at least one after an ending event: every registration starts a context watcher with a guaranteed cancel, and every path from Close in the stop function cancels all pending entries and the callback context; Close is guarded, once, and coupled with the stop cause, which is non-nil at every call; (D3) both client Send sites require the running state established in the same critical section; (D4) filterError maps exactly the codes ErrorCode assigns to context.Canceled/DeadlineExceeded back to them; (D5) OnCancel runs with the lock definitely released, after the Response settled, from a closure created only after this goroutine wrote the slot; OnStop runs with the lock released, only from the closure the stop function returns after actually closing; (D6) reader, per-message delivery and callback goroutines are registered with the WaitGroup that Close waits on before every return. (D7) the waiter that settles a Response calls its cancel function on every path; the delivery loop has no early exit. (D8) the loop that waits for the responses of a batch has no early exit; the table of pending responses is assigned only at construction.",
+		NotDecided:  []string{"which of reply / context end wins a race", "absence of blocking in user hooks; timing"},
 		Assumptions: []string{"context cancellation semantics", "sync.WaitGroup semantics"},
 		RuleText:    ruleText,
 		Run: func(c *chk.Ctx, tier string) {
@@ -92,10 +93,10 @@ func init() {
 		},
 	})
 	register(&Def{
-		ID:        "C09",
-		Technique: "gate dominance for push entry points, running-state facts at the push send, atomic id counter, single-writer slot typestate for the callback table, predicate extraction in the reply filter, provenance of the queued batch",
-		Explanation: "Decides: (D1) the push function is called only on the allowPush edge, the other edge returning a package-level error; (D2) the push send requires the running state in its critical section and the not-running edge returns a package-level error; (D3) callback ids come from FormatInt(counter) with counter++ in one critical section; (D4) callback slots are written only after lookup-and-remove under the server lock (reader interception and context watcher), registered with key = id together with a context watcher, all cancelled by the stop function; (D5) the reply filter keeps a member for dispatch only if it is a request/notification or push is disabled, and never returns its input; (D6) the reader queues exactly the filter's result (interception precedes queueing, under the lock). (D7) the callback watcher is started on every path after registration; a removed callback entry is always completed; every look-up in the callback table sits on the ¬isRequestOrNotification edge.",
-		NotDecided: []string{"which of reply / context end / stop wins a race for a callback"},
+		ID:          "C09",
+		Technique:   "gate dominance for push entry points, running-state facts at the push send, atomic id counter, single-writer slot typestate for the callback table, predicate extraction in the reply filter, provenance of the queued batch",
+		Explanation: "Decides: (D1) the push function is called only on the allowPush edge, the other edge returning a package-level error; (D2) the push send requires the running state in its critical section and the not-running edge returns a package-level error; (D3) callback ids come from FormatInt(counter) with counter++ in one critical section; (D4) callback slots are written only after lookup-and-remove under the server lock (reader interception and context watcher), registered with key = id together with a context watcher, all cancelled by the stop function; (D5) the reply filter keeps a member for dispatch only if it is a request/notification or push is disabled, and never returns its input; (D6) the reader queues exactly the filter's result (interception precedes queueing, under the lock). (D7) the callback watcher is started on every path after registration; a removed callback entry is always completed; every look-up in the callback table sits on the ¬isRequestOrNotification edge. (D8) the request predicate is exactly method ≠ \"\" ∧ no error ∧ no result; the callback table is assigned only at construction; replies are matched by their whole id text.",
+		NotDecided:  []string{"which of reply / context end / stop wins a race for a callback"},
 		Assumptions: []string{"sync.Mutex semantics"},
 		RuleText:    ruleText,
 		Run: func(c *chk.Ctx, tier string) {
@@ -113,6 +114,7 @@ func init() {
 			ruleStopCancelsTable(c, "server", c.M.SCall, c.M.RCancel, "pending callbacks")
 			ruleCallbackTakeCompletes(c)
 			rulePendingTablesNeverReplaced(c, c.M.SCall)
+			ruleReplyKeyWhole(c, c.M.SCall, "server")
 			ruleRequestPredicateTable(c)
 			ruleLockField(c, "server", c.M.SCall, c.M.SCallID)
 			c.Clause("C09-D5/D6")
